@@ -30,33 +30,22 @@ theorem choose_override (override http parent : Option Name) (c : Content) (h : 
     choose override http parent c = ⟨override.getD [], 0⟩ := by
   simp [choose, h]
 
-theorem readUrl_pair (w : World) (http : Option Name) (c : Content) (override parent : Option Name) :
-    readUrl w (.pair http c) override parent =
-      match decodeContent w c (choose override http parent c).encoding with
-      | .ok t => .ok (some ⟨(choose override http parent c).encoding, (choose override http parent c).enctype, t⟩)
-      | .error e => .error e := rfl
-
 theorem readUrl_some (w : World) (r : FetchRes) (override parent : Option Name) (x : ReadOk)
-    (hr : readUrl w r override parent = .ok (some x)) :
+    (hr : readUrl w r override parent = some x) :
     ∃ http c, r = .pair http c ∧ (⟨x.encoding, x.enctype⟩ : Choice) = choose override http parent c ∧
-      decodeContent w c x.encoding = .ok x.text := by
+      decodeContent w c x.encoding = x.text := by
   cases r with
   | none => simp [readUrl] at hr
   | badLen => simp [readUrl] at hr
   | noContent h => simp [readUrl] at hr
   | pair http c =>
     refine ⟨http, c, rfl, ?_⟩
-    rw [readUrl_pair] at hr
-    cases hd : decodeContent w c (choose override http parent c).encoding with
-    | error e => rw [hd] at hr; cases hr
-    | ok t =>
-      rw [hd] at hr
-      simp only [Except.ok.injEq, Option.some.injEq] at hr
-      subst hr
-      exact ⟨rfl, hd⟩
+    simp only [readUrl, Option.some.injEq] at hr
+    subst hr
+    exact ⟨rfl, rfl⟩
 
 theorem readUrl_override (w : World) (r : FetchRes) (override parent : Option Name) (x : ReadOk)
-    (h : truthy override = true) (hr : readUrl w r override parent = .ok (some x)) :
+    (h : truthy override = true) (hr : readUrl w r override parent = some x) :
     x.encoding = override.getD [] ∧ x.enctype = 0 := by
   obtain ⟨http, c, _, hch, _⟩ := readUrl_some w r override parent x hr
   rw [choose_override override http parent c h] at hch
@@ -192,7 +181,6 @@ theorem loadChild_override (w : World) (e : Name) (he : e ≠ []) :
     · split at h
       · simp only [Except.ok.injEq] at h; subst h; exact failed
       · split at h
-        · cases h
         · simp only [Except.ok.injEq] at h; subst h; exact failed
         · rename_i rd hrd
           rw [hs] at hrd
@@ -243,7 +231,7 @@ theorem loadChild_override (w : World) (e : Name) (he : e ≠ []) :
 
 def LadderRec (w : World) (x : Rec) : Prop :=
   x.found = true → ∃ http c, w.fetch x.url = .pair http c ∧
-    choose none http x.parentArg c = ⟨x.used, x.enctype⟩ ∧ decodeContent w c x.used = .ok (some x.text)
+    choose none http x.parentArg c = ⟨x.used, x.enctype⟩ ∧ decodeContent w c x.used = some x.text
 
 theorem beginEO_no_override (s : Sheet) (eo en : Option Name) (hs : s.override = none) (h : truthy eo = false) :
     (beginEO s eo en).override = none := by
@@ -269,7 +257,6 @@ theorem loadChild_ladder (w : World) :
     · split at h
       · simp only [Except.ok.injEq] at h; subst h; exact failed
       · split at h
-        · cases h
         · simp only [Except.ok.injEq] at h; subst h; exact failed
         · rename_i rd hrd
           rw [hs] at hrd
@@ -426,7 +413,6 @@ theorem loadChild_depth (w : World) : ∀ fuel d, ChildHands (loadChild w fuel d
     · split at h
       · simp only [Except.ok.injEq] at h; subst h; exact failed
       · split at h
-        · cases h
         · simp only [Except.ok.injEq] at h; subst h; exact failed
         · split at h
           · simp only [Except.ok.injEq] at h; subst h; exact failed
@@ -511,14 +497,11 @@ theorem loadChild_fuel_succ (w : World) :
       · rename_i hy; rw [if_pos hy] at h; exact h
       · rename_i hy; rw [if_neg hy] at h
         cases hr : readUrl w (w.fetch u) s.override (parentEncodingOf s) with
-        | error e => rw [hr] at h; cases h
-        | ok o =>
+        | none => rw [hr] at h; exact h
+        | some rd =>
           rw [hr] at h
-          cases o with
-          | none => exact h
-          | some rd =>
-            simp only at h ⊢
-            cases ht : rd.text with
+          simp only at h ⊢
+          (cases ht : rd.text with
             | none => rw [ht] at h; exact h
             | some t =>
               rw [ht] at h
@@ -532,7 +515,7 @@ theorem loadChild_fuel_succ (w : World) :
                 rw [hp] at h
                 rw [parseItems_mono w (loadChild w f (d + 1)) (loadChild w (f + 1) (d + 1))
                   (fun s u r hr => ih (d + 1) s u r hr) _ _ _ _ hp]
-                exact h
+                exact h)
 
 theorem loadChild_fuel_mono (w : World) (k : Nat) :
     ∀ fuel d s u r, loadChild w fuel d s u = .ok r → loadChild w (fuel + k) d s u = .ok r := by
@@ -576,7 +559,6 @@ theorem loadChild_reported (w : World) :
     · split at h
       · simp only [Except.ok.injEq] at h; subst h; exact failed
       · split at h
-        · cases h
         · simp only [Except.ok.injEq] at h; subst h; exact failed
         · rename_i rd hrd
           split at h
@@ -717,5 +699,86 @@ theorem explicit_short (l : List Nat) (hl : l.length < 4) :
         rw [norm_eq_const a 0xFF (by decide) h1, norm_eq_const b 0xFE (by decide) h2]; rfl
   rw [exAns_detect_short l true (key true).1, exAns_detect_short l false (key false).1]
   exact (key true).2
+
+end CssVerif.EncLadder
+
+namespace CssVerif.EncLadder
+
+/-! ## loading never raises (the only error of the model is its own fuel bound) -/
+
+theorem setEncodingRule_ok (w : World) (rules : List RuleK) (e : Name) :
+    ∃ rs, setEncodingRule w rules e = .ok rs := by
+  unfold setEncodingRule
+  split <;> split <;> exact ⟨_, rfl⟩
+
+theorem finishEO_ok (w : World) (st : PState) (eo en : Option Name) : ∃ st', finishEO w st eo en = .ok st' := by
+  unfold finishEO
+  split
+  · obtain ⟨rs, h⟩ := setEncodingRule_ok w st.sheet.rules (st.sheet.override.getD [])
+    rw [h]; exact ⟨_, rfl⟩
+  · split
+    · obtain ⟨rs, h⟩ := setEncodingRule_ok w st.sheet.rules (en.getD [])
+      rw [h]; exact ⟨_, rfl⟩
+    · exact ⟨_, rfl⟩
+
+theorem parseItems_err (w : World) (child : ChildLoader)
+    (hc : ∀ s u e, child s u = .error e → e = .outOfFuel) :
+    ∀ items exp st e, parseItems w child items exp st = .error e → e = .outOfFuel := by
+  intro items
+  induction items with
+  | nil => intro exp st e h; simp [parseItems] at h
+  | cons it t ih =>
+    intro exp st e h
+    cases it with
+    | charset n =>
+      simp only [parseItems] at h
+      split at h
+      · exact ih _ _ _ h
+      · split at h <;> exact ih _ _ _ h
+    | ws => simp only [parseItems] at h; exact ih _ _ _ h
+    | comment => simp only [parseItems] at h; exact ih _ _ _ h
+    | other => simp only [parseItems] at h; exact ih _ _ _ h
+    | imp u =>
+      simp only [parseItems] at h
+      split at h
+      · rename_i e1 h1
+        simp only [Except.error.injEq] at h; subst h
+        exact hc _ _ _ h1
+      · split at h
+        · exact ih _ _ _ h
+        · split at h
+          · exact ih _ _ _ h
+          · split at h
+            · exact ih _ _ _ h
+            · split at h
+              · rename_i e2 h2
+                simp only [Except.error.injEq] at h; subst h
+                exact hc _ _ _ h2
+              · exact ih _ _ _ h
+
+theorem loadChild_err (w : World) :
+    ∀ fuel d s u e, loadChild w fuel d s u = .error e → e = .outOfFuel := by
+  intro fuel
+  induction fuel with
+  | zero => intro d s u e h; simp only [loadChild, Except.error.injEq] at h; exact h.symm
+  | succ f ih =>
+    intro d s u e h
+    simp only [loadChild] at h
+    split at h
+    · cases h
+    · split at h
+      · cases h
+      · split at h
+        · cases h
+        · split at h
+          · cases h
+          · split at h
+            · rename_i e1 h1
+              simp only [Except.error.injEq] at h; subst h
+              exact parseItems_err w _ (fun s u e he => ih (d + 1) s u e he) _ _ _ _ h1
+            · rename_i st hst
+              obtain ⟨st', hf⟩ := finishEO_ok w st _ _
+              rw [hf] at h
+              cases h
 
 end CssVerif.EncLadder
